@@ -62,9 +62,9 @@ CHECKS = {
  "C19": ("exploration", "differential monitor against an independent reference renderer of the documented dump format",
          "ExpressionDump output of parser-produced trees is compared byte for byte with a reference renderer over 18 indent strings x 4 levels, in random order within one process (history dependence shows).",
          "Documented format = the one pinned by ast_test.go.", "DESIGN.md §4 C19"),
- "C20": ("translation_validation", "invariant on the live rule table (VerifTable hook) vs grammar.peg read at check time + differential execution of every shipped action against the grammar's code block compiled in through go build -overlay",
-         "Complete node-for-node comparison of all rules; every action bound to the pre-order name the generator prescribes; every action executed side by side with the compiled code block over a product universe.",
-         "Actions are compared up to observable behaviour on the argument universe; the .peg reader follows pigeon's syntax.", "DESIGN.md §4 C20"),
+ "C20": ("translation_validation", "invariant on the live rule table (VerifTable hook) vs grammar.peg read at check time + differential execution of every shipped action against the grammar's code block compiled in through go build -overlay + end-to-end differential execution of the shipped parser against a generic PEG machine interpreting grammar.peg with those code blocks",
+         "Complete node-for-node comparison of all rules; every action bound to the pre-order name the generator prescribes; every action executed side by side with the compiled code block over a product universe; grammar-derived inputs from every entry rule (boundary runes of every class, invalid encodings, mutants) parsed by both, comparing acceptance, value and recorded errors.",
+         "Actions are compared up to observable behaviour on the argument universe; the .peg reader follows pigeon's syntax; texts of no-match diagnostics are not compared.", "DESIGN.md §4 C20"),
 }
 NOT_YET = {}
 
